@@ -730,8 +730,11 @@ def rule_R8bitget(text, applied):
 
 
 def rule_R8index(text, applied, arg=None):
-    """`&RECV[ID]` on an Arena stand-in -> `RECV.vindex(ID)`; arg = RECV (exact receiver path)."""
-    t, n = _sub_masked(text, r"&\s*" + re.escape(arg) + r"\[([^\]]+)\]", lambda m, s: f"{arg}.vindex({m.group(1).strip()})")
+    """`&RECV[ID]` on an Arena -> `RECV.METHOD(ID)`; arg = RECV[=METHOD] (exact receiver path; METHOD defaults
+    to the stand-in's `vindex`, `index` names the hosted `Index::index` of the extracted Arena)."""
+    recv, _, meth = arg.partition("=")
+    meth = meth or "vindex"
+    t, n = _sub_masked(text, r"&\s*" + re.escape(recv) + r"\[([^\]]+)\]", lambda m, s: f"{recv}.{meth}({m.group(1).strip()})")
     if n:
         applied.append(f"R8index({arg})x{n}")
     return t
@@ -1024,8 +1027,21 @@ def build_fn(src: Source, selector, opts, sections, emitter: Emitter, unit_rules
         body_close = match_close(m_text, sig_end)
         lps = loops_in(m_text, sig_end + 1, body_close)
         for key, val in sections.items():
-            if key.startswith("loop "):
-                n = int(key.split()[1])
+            if key.startswith("loop ") or key.startswith("loop? "):
+                optional = key.startswith("loop? ")
+                spec_ = key.split(None, 1)[1].strip()
+                rm_ = re.match(r"/(.*)/\s*(\d+)?$", spec_)
+                if rm_:
+                    # loop selected by a regex on its header (keyword up to the body brace), k-th match
+                    kk = int(rm_.group(2) or 1)
+                    hits = [lp for lp in lps if re.search(rm_.group(1), m_text[lp[0]:lp[1]])]
+                    if len(hits) < kk:
+                        if optional:
+                            continue
+                        raise ExtractError(f"{selector}: loop /{rm_.group(1)}/ #{kk} not found (lost anchor)")
+                    add_insert(hits[kk - 1][1], "\n" + val.rstrip("\n") + "\n")
+                    continue
+                n = int(spec_)
                 if n < 1 or n > len(lps):
                     raise ExtractError(f"{selector}: loop {n} not found (function has {len(lps)} loops) (lost anchor)")
                 add_insert(lps[n - 1][1], "\n" + val.rstrip("\n") + "\n")
